@@ -24,7 +24,9 @@ type Outcome struct {
 	Trace   string // stress runs: the observed trace as a driver line for the Lean trace oracle
 }
 
-const gateWait = 10 * time.Second
+// waits for events that do happen on a correct tree: generous, they cost nothing when the event arrives
+const gateWait = 60 * time.Second
+const waitBudget = 60 * time.Second
 
 // ScLostWakeup: the consumer goroutine is parked between its closed-check and its blocking
 // Pop; the consumer is stopped (or the stream closed); the goroutine is released.
@@ -60,7 +62,7 @@ func ScLostWakeup(viaStreamClose bool, hevc bool) Outcome {
 		return Outcome{Name: name, Fail: "stop/close blocked while a consumer goroutine is between its closed-check and Pop"}
 	}
 	gt.Release()
-	ok := Eventually(5*time.Second, func() bool { return r.CloseCalls() >= 1 })
+	ok := Eventually(waitBudget, func() bool { return r.CloseCalls() >= 1 })
 	time.Sleep(2 * time.Millisecond)
 	if !ok {
 		return Outcome{Name: name, Fail: "consumer never released: Consumer.Close not called after stop/close (goroutine parked in Pop)", Detail: w.Observe()}
@@ -96,7 +98,7 @@ func ScJoinRace(parkPublisher bool, hevc bool) Outcome {
 		gt := g.Arm("stream.join.snapshotted", 0)
 		joined := make(chan struct{})
 		go func() { w.Join(r, true); close(joined) }()
-		reached := gt.WaitReached(2 * time.Second)
+		reached := gt.WaitReached(gateWait)
 		// publish while the joiner sits between snapshot and registration (with the fix the
 		// joiner cannot be parked there while the publisher gets in: both are serialised)
 		pubDone := make(chan struct{})
@@ -114,7 +116,7 @@ func ScJoinRace(parkPublisher bool, hevc bool) Outcome {
 		gt := g.Arm("stream.write.cached", 0)
 		pubDone := make(chan struct{})
 		go func() { w.Publish(KNonKey, 2); close(pubDone) }()
-		gt.WaitReached(2 * time.Second)
+		gt.WaitReached(gateWait)
 		joined := make(chan struct{})
 		go func() { w.Join(r, true); close(joined) }()
 		select {
@@ -148,7 +150,7 @@ func ScAttachAfterClose(hevc bool) Outcome {
 	w.S.Close()
 	r := w.NewRec()
 	w.Join(r, true)
-	ok := Eventually(5*time.Second, func() bool { return r.CloseCalls() >= 1 })
+	ok := Eventually(waitBudget, func() bool { return r.CloseCalls() >= 1 })
 	time.Sleep(2 * time.Millisecond)
 	if !ok {
 		return Outcome{Name: name, Fail: "consumer attached to a closed stream is never closed", Detail: w.Observe()}
@@ -240,7 +242,7 @@ func ScAttachDuringClose(hevc bool) Outcome {
 	gt.Release()
 	<-closed
 	<-joined
-	ok := Eventually(5*time.Second, func() bool { return r.CloseCalls() >= 1 })
+	ok := Eventually(waitBudget, func() bool { return r.CloseCalls() >= 1 })
 	time.Sleep(2 * time.Millisecond)
 	if !ok {
 		return Outcome{Name: name, Fail: "consumer attaching during close is never closed", Detail: w.Observe()}
@@ -271,7 +273,7 @@ func ScCounterRace(withCloseAll bool, hevc bool) Outcome {
 	gt := g.Arm("consumptions.remove.loaded", 0)
 	first := make(chan struct{})
 	go func() { w.S.StopConsume(r.CID); close(first) }()
-	reached := gt.WaitReached(2 * time.Second)
+	reached := gt.WaitReached(gateWait)
 	second := make(chan struct{})
 	go func() {
 		if withCloseAll {
@@ -290,7 +292,7 @@ func ScCounterRace(withCloseAll bool, hevc bool) Outcome {
 	<-first
 	<-second
 	_ = reached
-	Eventually(5*time.Second, func() bool { return r.CloseCalls() >= 1 })
+	Eventually(waitBudget, func() bool { return r.CloseCalls() >= 1 })
 	time.Sleep(2 * time.Millisecond)
 	_, _, rc, _ := w.S.VerifTables()
 	if rc != 0 {
@@ -340,7 +342,7 @@ func ScWorkerLostWakeup(point, fn string) Outcome {
 		return Outcome{Name: name, Fail: "Stream.Close blocked while a worker is between its closed-check and Pop"}
 	}
 	gt.Release()
-	ok := Eventually(5*time.Second, func() bool { return goroutinesMatching(fn) <= before })
+	ok := Eventually(waitBudget, func() bool { return goroutinesMatching(fn) <= before })
 	if !ok {
 		return Outcome{Name: name, Fail: fmt.Sprintf("conversion goroutine %s still alive after Stream.Close (parked in Pop for ever)", fn)}
 	}
@@ -413,6 +415,7 @@ func ScStress(seed uint64, hevc bool) Outcome {
 				w.Join(r, true)
 				if rnd()%2 == 0 {
 					time.Sleep(time.Duration(rnd()%300) * time.Microsecond)
+					r.stopped = true
 					w.S.StopConsume(r.CID)
 				}
 			}
@@ -421,7 +424,7 @@ func ScStress(seed uint64, hevc bool) Outcome {
 	wg.Wait()
 	<-pubDone
 	// let live consumers drain, then close
-	Eventually(5*time.Second, func() bool {
+	drained := Eventually(waitBudget, func() bool {
 		rtpT, _, _, _ := w.S.VerifTables()
 		for _, c := range rtpT {
 			if c.QueueLen > 0 {
@@ -434,7 +437,7 @@ func ScStress(seed uint64, hevc bool) Outcome {
 	w.S.Close()
 	rmu.Lock()
 	defer rmu.Unlock()
-	ok := Eventually(8*time.Second, func() bool {
+	ok := Eventually(waitBudget, func() bool {
 		for _, r := range recs {
 			if r.CloseCalls() < 1 {
 				return false
@@ -480,6 +483,11 @@ func ScStress(seed uint64, hevc bool) Outcome {
 			tb.WriteByte(';')
 		}
 		d := r.Delivered()
+		if !r.stopped && drained {
+			// attached until the stream closed, queues drained before the close, far fewer packets than
+			// the backlog limit: this consumer must have received EVERYTHING from its join on
+			tb.WriteByte('!')
+		}
 		if len(d) == 0 {
 			tb.WriteByte('.')
 		}
@@ -526,6 +534,7 @@ func ScStapParamsetsIdr(hevc bool) Outcome {
 	w.Publish(KNonKey, 2)
 	r := w.NewRec()
 	w.Join(r, true)
+	w.Quiesce()
 	Eventually(2*time.Second, func() bool { return len(r.Delivered()) >= 3 })
 	d := r.Delivered()
 	if fmt.Sprint(d) != "[1 2 3]" {
@@ -668,7 +677,7 @@ func ScCloseDuringJoin(flvTable bool, hevc bool) Outcome {
 	gt.Release()
 	<-joined
 	<-closed
-	ok := Eventually(5*time.Second, func() bool { return closeCalls() >= 1 })
+	ok := Eventually(waitBudget, func() bool { return closeCalls() >= 1 })
 	time.Sleep(2 * time.Millisecond)
 	if !ok {
 		return Outcome{Name: name, Fail: "a consumer attaching while the stream is being closed is never closed (left registered on a dead stream)", Detail: w.Observe()}
